@@ -584,6 +584,12 @@ class AtLeastKInARow(_KInARow):
                 implications.append(If(And([Not(sublist[0]), sublist[1]]), And(sublist[2:])))
             # Ending corner case
             implications.append(If(Not(sublists[-1][1]), Not(Or(sublists[-1][2:]))))
+            # A run cannot start later within the last k-1 trials, either. (With a
+            # single sublist, the starting corner case already rules that out.)
+            if len(sublists) > 1:
+                last = sublists[-1]
+                for idx in range(2, len(last) - 1):
+                    implications.append(If(Not(last[idx]), Not(Or(last[idx + 1:]))))
 
         (cnf, new_fresh) = block.cnf_fn(And(implications), backend_request.fresh)
 
